@@ -351,12 +351,16 @@ class DQN(RLAlgorithm):
 
     def soft_update(self) -> None:
         """Soft updates target network."""
-        for eval_param, target_param in zip(
-            self.actor.parameters(), self.actor_target.parameters()
+        # NOTE: The target's parameters are detached tensors (see `init_hook`) which don't
+        # appear in `actor_target.parameters()`, so we fetch them by name module by module
+        for eval_module, target_module in zip(
+            nn.Module.modules(self.actor), nn.Module.modules(self.actor_target)
         ):
-            target_param.data.copy_(
-                self.tau * eval_param.data + (1.0 - self.tau) * target_param.data
-            )
+            for name, eval_param in eval_module.named_parameters(recurse=False):
+                target_param: torch.Tensor = getattr(target_module, name)
+                target_param.data.copy_(
+                    self.tau * eval_param.data + (1.0 - self.tau) * target_param.data
+                )
 
     def test(
         self,
